@@ -532,7 +532,7 @@ type runResult struct {
 
 const traced = "execve,openat,newfstatat,unlinkat,renameat,renameat2,fchmod,write,close"
 
-func runTraced(bin string, args []string, dir string, inj []inject, scratch string) (runResult, error) {
+func runTraced(bin string, args []string, stdin string, dir string, inj []inject, scratch string) (runResult, error) {
 	os.RemoveAll(scratch)
 	if err := os.MkdirAll(scratch, 0o755); err != nil {
 		return runResult{}, err
@@ -547,13 +547,19 @@ func runTraced(bin string, args []string, dir string, inj []inject, scratch stri
 	}
 	sargs = append(sargs, bin)
 	sargs = append(sargs, args...)
-	cmd := exec.Command("strace", sargs...)
+	ctx, cancel := context.WithTimeout(context.Background(), 5*time.Minute)
+	defer cancel()
+	cmd := exec.CommandContext(ctx, "strace", sargs...)
 	cmd.Env = append(os.Environ(), "ZOEKT_VERIF_LOCKTHREAD=1")
+	cmd.Stdin = strings.NewReader(stdin)
 	var so, se bytes.Buffer
 	cmd.Stdout, cmd.Stderr = &so, &se
 	t0 := time.Now()
 	err := cmd.Run()
 	res := runResult{stdout: so.String(), stderr: se.String(), wall: time.Since(t0)}
+	if ctx.Err() != nil {
+		return res, fmt.Errorf("zoekt-merge-index did not finish within 5 minutes (hang?): %v", args)
+	}
 	code := 0
 	if err != nil {
 		var ee *exec.ExitError
@@ -606,6 +612,7 @@ func runTraced(bin string, args []string, dir string, inj []inject, scratch stri
 // ---------------------------------------------------------------- scenarios
 
 type scenario struct {
+	Stdin  bool       `json:"stdin,omitempty"` // `merge -`: the input paths come on stdin, one per line
 	Cmd    string     `json:"cmd"` // merge | explode
 	Files  []fileSpec `json:"files"`
 	Inputs []string   `json:"inputs"` // bases given on the command line
@@ -681,10 +688,24 @@ func (sc scenario) expectedDst() string {
 
 func (sc scenario) args(dir string) []string {
 	a := []string{sc.Cmd}
+	if sc.Stdin {
+		return append(a, "-")
+	}
 	for _, b := range sc.Inputs {
 		a = append(a, filepath.Join(dir, b))
 	}
 	return a
+}
+
+func (sc scenario) stdin(dir string) string {
+	if !sc.Stdin {
+		return ""
+	}
+	var sb strings.Builder
+	for _, b := range sc.Inputs {
+		sb.WriteString(" " + filepath.Join(dir, b) + " \n") // mergeCmd trims each line
+	}
+	return sb.String()
 }
 
 func orderOf(ops []sysop, prefix string) string {
@@ -737,7 +758,11 @@ func caseOf(j *job) gen.Case {
 	d0 := encodeDir0(sc.Files)
 	switch sc.Cmd {
 	case "merge":
-		in = fmt.Sprintf("merge %s %s %s %s %s", sc.expectedDst(), strings.Join(sc.Inputs, ","), d0, gen.NatList(faults), kill)
+		names := "-"
+		if len(sc.Inputs) > 0 {
+			names = strings.Join(sc.Inputs, ",")
+		}
+		in = fmt.Sprintf("merge %s %s %s %s %s", sc.expectedDst(), names, d0, gen.NatList(faults), kill)
 	case "explode":
 		var sm []string
 		if f := sc.file(sc.Inputs[0]); f != nil {
@@ -827,7 +852,7 @@ func (r *runner) once(j *job, inj []inject) (runResult, error) {
 	if err := materialise(j.dir, j.sc.Files); err != nil {
 		return runResult{}, err
 	}
-	return runTraced(r.bin, j.sc.args(j.dir), j.dir, inj, j.dir+".st")
+	return runTraced(r.bin, j.sc.args(j.dir), j.sc.stdin(j.dir), j.dir, inj, j.dir+".st")
 }
 
 func (r *runner) run(j *job) {
@@ -940,6 +965,14 @@ func genScenarios(p *pool, r *gen.Rand, n int) []scenario {
 			sc.Files = append(sc.Files, bystanders()...)
 			if r.Chance(1, 2) {
 				sc.Files = append(sc.Files, p.compound[1])
+			}
+			if r.Chance(1, 3) {
+				sc.Stdin = true
+				sc.Class = "simple-stdin"
+				if r.Chance(1, 4) {
+					sc.Inputs = nil // nothing on stdin: "merge requires at least one shard path"
+					sc.Class = "no-input"
+				}
 			}
 			out = append(out, sc)
 		case k < 6: // merge involving a compound shard with a tombstone sidecar
